@@ -19,6 +19,11 @@ def run(verdict, exe, tier, seed, tag="C05bytes"):
     strings += [chr(c) + "x" + chr(c) for c in (34, 36, 39, 92, 123, 125, 10, 35, 47, 42)]
     n_rand = 300 if tier == "quick" else 3000
     special = '"\\$\'{}#/*\n\t =,()+' + "".join(chr(c) for c in (1, 127, 128, 255))
+    # every ordered pair of the bytes that mean something to the scanner (line ends, quotes, escapes, comment and
+    # substitution markers): a pair can be treated differently from its members (CR LF, backslash newline, "${", "*/")
+    pairset = '"\\$\'{}#/*\n\r\t ' + ("" if tier == "quick" else "=,()+-0x~")
+    strings += [a + b for a in pairset for b in pairset]
+    strings += ["a" + a + b + "z" for a in "\r\n\\" for b in "\r\n\\"]
     for _ in range(n_rand):
         k = rng.randint(1, 8)
         strings.append("".join(rng.choice(special) if rng.random() < 0.6 else chr(rng.randint(1, 255)) for _ in range(k)))
